@@ -4689,9 +4689,18 @@ func (t *Terminal) Loop() error {
 					eofChan := make(chan bool)
 					finishChan := make(chan bool, 1)
 					err := cmd.Start()
+					// A process that has left the process group of the command (setsid, a
+					// daemon) is not killed with it and may still hold the pipe: close our end
+					// so that the reader does not wait for it
+					killPreviewCommand := func() {
+						util.KillCommand(cmd)
+						if out != nil {
+							out.Close()
+						}
+					}
 					if err == nil {
 						t.previewKiller = func() {
-							util.KillCommand(cmd)
+							killPreviewCommand()
 							removeFiles(tempFiles)
 						}
 					}
@@ -4780,7 +4789,7 @@ func (t *Terminal) Loop() error {
 										continue
 									}
 									if request.immediately {
-										util.KillCommand(cmd)
+										killPreviewCommand()
 									} else {
 										// We can immediately kill a long-running preview program
 										// once we started rendering its partial output
@@ -4791,7 +4800,7 @@ func (t *Terminal) Loop() error {
 										timer := time.NewTimer(delay)
 										select {
 										case <-timer.C:
-											util.KillCommand(cmd)
+											killPreviewCommand()
 										case <-finishChan:
 										}
 										timer.Stop()
